@@ -75,11 +75,13 @@ def _callers(allow: list[str]) -> list[dict[str, Any]]:
 
 
 def _jws_class(token: str) -> str:
-    """'jws' = exactly three non-empty base64url segments; 'opaque' = not three dot-separated segments; else 'ambiguous'."""
+    """'jws' = JWS compact serialization (RFC 7515 s3.1/7.1): three dot-separated base64url segments, header and payload
+    non-empty, signature possibly empty (an Unsecured JWS, alg=none, RFC 7515 A.5 ends in a dot); 'opaque' = not three
+    dot-separated segments; else 'ambiguous'."""
     segs = token.split(".")
     if len(segs) != 3:
         return "opaque"
-    if all(s and all(c in _B64URL for c in s) for s in segs):
+    if all(all(c in _B64URL for c in s) for s in segs) and segs[0] and segs[1]:
         return "jws"
     return "ambiguous"
 
@@ -593,7 +595,7 @@ def main(tier: str, seed: int) -> int:
         "caller identity comes from a harness authenticate callback keyed by a request header",
         "x-request-id is excluded from byte-identity comparisons (per-request correlation id)",
         "size limits are not numbers in the property: token <= ~1.5k chars / body < 4 KiB must be usable, token 200k chars / body >= 300 KB must be refused, sizes in between are unjudged",
-        "JWS-shaped = exactly three non-empty base64url segments; three-segment tokens with an empty segment or foreign characters are unjudged as to resolver consultation",
+        "JWS-shaped = RFC 7515 compact serialization: three base64url segments, header and payload non-empty, signature possibly empty (unsecured JWS); other three-segment tokens (empty header/payload, foreign characters) are unjudged as to resolver consultation",
         "rate limit configured at 1e9/s so 429 never interferes",
     ]
     jobs: list[dict[str, Any]] = []
